@@ -156,10 +156,13 @@ class RW1C(FieldAction):
     def elaborate(self, platform):
         m = Module()
 
-        for i, storage_bit in enumerate(self._storage):
-            with m.If(self.port.w_stb & self.port.w_data[i]):
+        # Operate on the underlying bits; views of custom shapes (e.g. enumerations) cannot be
+        # iterated or indexed.
+        storage, w_data, set_ = (Value.cast(v) for v in (self._storage, self.port.w_data, self.set))
+        for i, storage_bit in enumerate(storage):
+            with m.If(self.port.w_stb & w_data[i]):
                 m.d.sync += storage_bit.eq(0)
-            with m.If(self.set[i]):
+            with m.If(set_[i]):
                 m.d.sync += storage_bit.eq(1)
 
         m.d.comb += [
@@ -210,10 +213,13 @@ class RW1S(FieldAction):
     def elaborate(self, platform):
         m = Module()
 
-        for i, storage_bit in enumerate(self._storage):
-            with m.If(self.clear[i]):
+        # Operate on the underlying bits; views of custom shapes (e.g. enumerations) cannot be
+        # iterated or indexed.
+        storage, w_data, clear = (Value.cast(v) for v in (self._storage, self.port.w_data, self.clear))
+        for i, storage_bit in enumerate(storage):
+            with m.If(clear[i]):
                 m.d.sync += storage_bit.eq(0)
-            with m.If(self.port.w_stb & self.port.w_data[i]):
+            with m.If(self.port.w_stb & w_data[i]):
                 m.d.sync += storage_bit.eq(1)
 
         m.d.comb += [
